@@ -1,21 +1,20 @@
 """C18 -- history: every recorded line verbatim, durably, injection-free.
 
-The model (coq/theories/Model/History.v) is the TEXT of the three SQL statements
-cicada builds with format!, sqlite's string-literal lexing, a recogniser for the
-INSERT shape, and the table as a row list.  Layers:
-  L0  the model's lexer / LIKE matcher against sqlite3 itself (python client);
+The model (coq/theories/Model/History.v) follows the code as repaired by b952f8c:
+every statement is a TEMPLATE plus BOUND PARAMETERS; a recogniser of the INSERT
+template says which rows are stored given that binding is verbatim; the table is a
+row list.  Layers:
+  L0  the model's LIKE matcher against sqlite3 itself (python client);
   L1  in-process: the real add_raw and history builtin on one database file per
       scenario (arbitrary texts, both quote kinds, controlled session / directory
       strings); every intermediate table is read with python's sqlite3;
   L2  real `cicada -c` processes sharing one database file, cwd = directories with
-      the generated names; rows read with python's sqlite3 and with `history` in a
-      fresh process;
-  L3  (thorough, and a small sample in quick) interactive pty sessions: leading
-      space / repeat rule against session_run.
+      the generated names (quotes, the crafted second-row name, percent, ...);
+  L3  interactive pty sessions: leading space / repeat rule against session_run.
 Three predictions are compared for every operation: the model's own row-list
-semantics, sqlite (python client) applied to the model's statement text
-("faithful"), and the implementation.  The property's oracle ("intended") is the
-parameterised query a correct implementation would run."""
+semantics, sqlite (python client) given the model's template and parameter vector,
+and the implementation; all must equal the property's oracle (the submitted text up
+to trim, once; the rows selected by pattern / session / directory in tsb order)."""
 import os, shutil, sqlite3, subprocess, tempfile, time
 from concurrent.futures import ThreadPoolExecutor
 import common as C
@@ -24,22 +23,24 @@ EXTRACT = ["C18"]
 BINS = ["c18"]
 NEEDS_CICADA = True
 ALLOWED_AXIOMS = []
-PINNED = ["C18_line", "C18_insert_ok", "C18_literal_iff", "C18_dir_refuted", "C18_dir_injection", "C18_pattern_refuted",
-          "C18_partial", "C18_full", "C18_delete_exact", "C18_list_sound", "C18_search_complete", "C18_record_rule"]
+PINNED = ["C18_full", "C18_insert_text", "C18_insert_appends", "C18_select_text", "C18_select_params", "C18_select_arity",
+          "C18_row_matches", "C18_list_sound", "C18_list_complete", "C18_search_complete", "C18_delete_exact",
+          "C18_delete_text", "C18_record_rule", "C18_record_sound", "C18_record_complete"]
 TRUSTED = [
-    "Coq 8.16.1 kernel (coqc; coqchk in thorough); vm_compute only in witnesses / Examples",
-    "hand transcription of the three format! statements, of sqlite's string-literal lexing and of the main loop's "
-    "recording rule (coq/theories/Model/History.v), tied by L0-L3",
-    "sqlite itself (bundled 3.46 in cicada, 3.40 in python): SQL semantics beyond literal lexing, rowid allocation, "
-    "LIKE, ORDER BY, durability and locking are sqlite's; the model's versions of rowid / LIKE / ORDER / LIMIT are "
-    "compared with it on every case, not proved about it",
+    "Coq 8.16.1 kernel (coqc; coqchk in thorough); vm_compute only in the Example",
+    "hand transcription of the statement templates, parameter vectors and of the main loop's recording rule "
+    "(coq/theories/Model/History.v), tied by L1-L3",
+    "meaning of sqlite parameter binding: a bound value is stored / compared verbatim and never read as SQL (insert_rows, "
+    "clause_holds); compared with sqlite on every case (the model's template + parameters are run through python's sqlite3)",
+    "sqlite itself (bundled in cicada, 3.40 in python): rowid allocation, LIKE, ORDER BY, LIMIT, durability and locking are "
+    "sqlite's; the model's versions are compared with it on every case, not proved about it",
+    "the table name (HISTORY_TABLE) is still pasted into every statement: configuration, not command text / pattern / "
+    "directory name; the checks use the default",
     "extraction: ExtrOcamlBasic only; ocaml/c18/drv.ml; harness/src/bin/c18.rs; drive/c18.py; python sqlite3 as the independent client",
 ]
 ASSUMES = [
-    "no code point 0 in a line / pattern / directory name (argv and the line editor cannot deliver one)",
-    "number formatting (Display of i32 / f64) is not modelled: the numerals enter the statement text as given",
     "timestamps within one scenario are distinct (sqlite leaves the order of equal tsb unspecified)",
-    "session ids are the 13 leading characters of a hyphenated uuid (never contain a quote)",
+    "no code point 0 in generated texts (argv and the line editor cannot deliver one)",
 ]
 
 CREATE = """
@@ -83,10 +84,10 @@ def first_statement(sql):
     return sql
 
 
-def shadow_exec(conn, sql):
-    """sqlite applied to the model's statement text. -> ('OK', rows) | ('ERR', msg)"""
+def shadow_exec(conn, sql, params=()):
+    """sqlite given the model's template and parameter vector. -> ('OK', rows) | ('ERR', msg)"""
     try:
-        cur = conn.execute(first_statement(sql))
+        cur = conn.execute(first_statement(sql), params)
         rows = cur.fetchall()
         conn.commit()
         return "OK", rows
@@ -104,9 +105,19 @@ def rand_text(rng, alpha, lo, hi):
     return "".join(rng.choice(alpha) for _ in range(rng.randint(lo, hi)))
 
 
+def prefix_scenario(root):
+    """directories one of which is a prefix of the others: `history -p` must list its own rows only"""
+    ops = []
+    for i, (t, d) in enumerate([("x1", "d1"), ("x2", "d1x"), ("x3", "d1/sub"), ("x4", "it's"), ("x5", "it's2")]):
+        ops.append({"k": "A", "line": t, "status": "0", "ts": 10 + i, "session": "s1", "dir": root + "/" + d})
+    for d in ["d1", "d1x", "d1/sub", "it's", "it's2"]:
+        ops.append({"k": "L", "pattern": "", "s": False, "a": True, "p": True, "limit": 20, "session": "s1", "dir": root + "/" + d})
+    return ops
+
+
 def gen_scenario(rng, root, l2=False):
-    """ops: dicts.  At most one add with a quote in the directory, and only as the last op."""
-    dirs_ok = ["d1", "a_b", "axb", "p%q", "日 é", 'q"r', "se;mi --x)"]
+    """ops: dicts."""
+    dirs_ok = ["d1", "d1x", "d1/sub", "a_b", "axb", "p%q", "日 é", 'q"r', "se;mi --x)"]   # d1 is a prefix of two others
     dirs_bad = ["it's", "x|'), ('pwn', 0, 0, 0, 's', 'dir:y", "o'", "a''b", "c'||'d"]
     n = rng.randint(3, 9)
     ops = []
@@ -123,7 +134,8 @@ def gen_scenario(rng, root, l2=False):
                 t = l2_safe(t)
             ts = ts_pool[i] + (0.5 if rng.random() < 0.25 and not l2 else 0)
             ops.append({"k": "A", "line": t, "status": "0", "ts": ts,
-                        "session": rng.choice(["s1", "s2", "0b1e6c2a-77aa"]), "dir": root + "/" + rng.choice(dirs_ok)})
+                        "session": rng.choice(["s1", "s2", "0b1e6c2a-77aa"] + ([] if l2 else ["s'3"])),
+                        "dir": root + "/" + rng.choice(dirs_ok + dirs_bad)})
             texts.append(t)
         elif r < 0.85:
             if texts and rng.random() < 0.5:
@@ -137,7 +149,7 @@ def gen_scenario(rng, root, l2=False):
             d = root + "/" + rng.choice(dirs_ok + (dirs_bad if rng.random() < 0.3 else []))
             ops.append({"k": "L", "pattern": pat, "s": rng.random() < 0.2 and not l2, "a": rng.random() < 0.4,
                         "p": rng.random() < 0.35, "limit": rng.choice([0, 1, 2, 3, 20, 20, 20]),
-                        "session": rng.choice(["s1", "s2"]), "dir": d})
+                        "session": rng.choice(["s1", "s2"] + ([] if l2 else ["s'3"])), "dir": d})
         else:
             ops.append({"k": "D", "n": rng.randint(1, 6)})
     if rng.random() < 0.35:
@@ -214,22 +226,12 @@ class Verdicts:
     def __init__(self, res, layer, known):
         self.res, self.layer, self.known = res, layer, known
         self.nviol = 0
-        self.repaired = set()
-        self.incomplete = 0
         self.cur_ops = None
 
     def violate(self, **kw):
         self.nviol += 1
         if self.nviol <= 3:
             self.res.violate(layer=self.layer, ops=self.cur_ops, **kw)
-
-    def known_hit(self, cls, example):
-        k = [f for f in self.known if f.get("class") == cls]
-        if not k:
-            self.violate(kind="oracle", failing_input=True, input=example,
-                         note="defect of class %s reproduces but is not recorded in known_findings.txt" % cls)
-        else:
-            self.res.known(cls, "class=%s input=%s what=%s" % (cls, example, k[0].get("what", "")))
 
 
 def describe(o):
@@ -239,6 +241,16 @@ def describe(o):
         return "history delete %d" % o["n"]
     fl = "".join([" -s" if o["s"] else "", " -a" if o["a"] else "", " -p" if o["p"] else ""])
     return "history --limit=%d%s -- %r   (cwd %r)" % (o["limit"], fl, o["pattern"], o["dir"])
+
+
+def model_params(field):
+    out = []
+    if field == "":
+        return out
+    for v in field.split(RS):
+        t = C.dec(v[1:])
+        out.append(t if v[0] == "S" else (float(t) if "." in t else int(t)))
+    return out
 
 
 def check_scenario(V, ops, mouts, impl, shadow_path):
@@ -259,43 +271,24 @@ def check_scenario(V, ops, mouts, impl, shadow_path):
             sql = C.dec(mf[1])
             before = [tuple(r) for r in conn.execute(ALLQ)]
             if o["k"] == "A":
-                verdict = mf[2].split(RS)[0]
-                mrows = parse_model_rows(mf[3])
-                st, _ = shadow_exec(conn, sql)
+                params, verdict, mrows = model_params(mf[2]), mf[3], parse_model_rows(mf[4])
+                shadow_exec(conn, sql, params)
                 faithful = [tuple(r) for r in conn.execute(ALLQ)]
                 nid = max([r[0] for r in before] + [0]) + 1
                 ts = float(o["ts"])
                 want = before + [(nid, o["line"].strip(WS), int(o["status"]), ts, ts + 1.0, o["session"], None,
                                   "dir:" + o["dir"] + "|")]
-                in_class = "'" in o["dir"]
-                if not in_class:
-                    # theorem C18_insert_ok: recogniser says "intended"; sqlite on the text stores exactly that row
-                    if verdict != "intended" or faithful != want or key_rows(faithful) != mrows:
-                        V.violate(kind="correspondence", failing_input=False, function="insert_sql/parse_insert/db_insert",
-                                  input=hist[:], model=[verdict, mrows], sqlite_on_model_text=faithful, expected=want,
-                                  note="model internally inconsistent with sqlite outside the known class")
-                    if im != want:
-                        V.violate(kind="oracle", failing_input=True, input=hist[:], expected=want, observed=im, sql=sql,
-                                  note="the row stored by the implementation is not the submitted line, verbatim, once")
-                    else:
-                        res.nontrivial("add:" + o["line"].strip(WS) + "|" + os.path.basename(o["dir"]))
+                # theorem C18_full: the recogniser says "intended"; sqlite given template + parameters stores exactly that row
+                if verdict != "intended" or faithful != want or key_rows(faithful) != mrows:
+                    V.violate(kind="correspondence", failing_input=False, function="insert_stmt/insert_rows/db_insert",
+                              input=hist[:], model=[verdict, mrows], sqlite_on_model_stmt=faithful, expected=want,
+                              note="model inconsistent with sqlite / with the property's oracle")
+                if im != want:
+                    V.violate(kind="oracle", failing_input=True, input=hist[:], expected=want, observed=im, sql=sql,
+                              note="the row stored by the implementation is not the submitted line, verbatim, once "
+                                   "(or recording failed / other rows changed)")
                 else:
-                    if verdict == "intended":
-                        V.violate(kind="correspondence", failing_input=False, input=hist[:],
-                                  note="recogniser accepts a directory with a quote as intended", model=mf[2])
-                    if verdict == "none" and st == "OK":
-                        V.incomplete += 1
-                    if im == want:
-                        V.repaired.add("insert-dir-quote")
-                    elif im == faithful:
-                        what = "nothing recorded (save error)" if faithful == before else "rows %r stored" % (faithful[len(before):],)
-                        V.known_hit("insert-dir-quote", "cd %r; history add %r -> %s" % (o["dir"], o["line"], what))
-                        res.nontrivial("known-add:" + os.path.basename(o["dir"]))
-                    else:
-                        V.violate(kind="oracle", failing_input=True, input=hist[:], expected=want, observed=im,
-                                  faithful_model=faithful, sql=sql,
-                                  note="inside the known class insert-dir-quote, but neither the recorded wrong behaviour nor the intended row")
-                    # continue from what the implementation has (last op of the scenario anyway)
+                    res.nontrivial("add:" + o["line"].strip(WS) + "|" + os.path.basename(o["dir"]))
             elif o["k"] == "D":
                 mrows = parse_model_rows(mf[2])
                 shadow_exec(conn, sql)
@@ -303,48 +296,33 @@ def check_scenario(V, ops, mouts, impl, shadow_path):
                 want = [r for r in before if r[0] != o["n"]]
                 if faithful != want or key_rows(faithful) != mrows:
                     V.violate(kind="correspondence", failing_input=False, function="delete_sql/db_delete", input=hist[:],
-                              model=mrows, sqlite_on_model_text=faithful, expected=want)
+                              model=mrows, sqlite_on_model_stmt=faithful, expected=want)
                 if im != want:
                     V.violate(kind="oracle", failing_input=True, input=hist[:], expected=want, observed=im,
                               note="history delete did not remove exactly the row named")
                 elif len(want) < len(before):
                     res.nontrivial("del:%d/%d" % (o["n"], len(before)))
             else:
-                mrows = parse_model_rows(mf[2])
-                st, frows = shadow_exec(conn, sql)
+                params = [C.dec(x) for x in mf[2].split(RS)] if mf[2] else []
+                mrows = parse_model_rows(mf[3])
+                st, frows = shadow_exec(conn, sql, params)
                 if st == "OK" and not o["a"]:
                     frows = frows[::-1]
                 faithful = ("OK", fmt_list(frows)) if st == "OK" else ("ERR", "")
                 want = ("OK", fmt_list(intended_list(conn, o)))
                 im = (im[0], im[1] if im[0] == "OK" else "")
-                cls = []
-                if "'" in o["pattern"]:
-                    cls.append("select-pattern-quote")
-                if o["p"] and "'" in o["dir"]:
-                    cls.append("select-dir-quote")
-                if not cls:
-                    mtxt = ("OK", fmt_list([(r[0], r[1]) for r in mrows]))
-                    if faithful != want or mtxt != want:
-                        V.violate(kind="correspondence", failing_input=False, function="select_sql/db_list", input=hist[:],
-                                  model=mtxt, sqlite_on_model_text=faithful, expected=want, sql=sql)
-                    if im != want:
-                        V.violate(kind="oracle", failing_input=True, input=hist[:], expected=want, observed=im, sql=sql,
-                                  note="listing differs from the rows selected by pattern / directory / session in tsb order")
-                    elif want[1]:
-                        res.nontrivial("list:" + o["pattern"] + "|" + want[1])
-                else:
-                    if im == want and faithful != want:
-                        for c in cls:
-                            V.repaired.add(c)
-                    elif im == faithful:
-                        if faithful != want:
-                            what = "prepare select error" if faithful[0] == "ERR" else "lists %r instead of %r" % (faithful[1], want[1])
-                            V.known_hit(cls[0], "%s -> %s" % (describe(o), what))
-                            res.nontrivial("known-list:" + o["pattern"] + "|" + os.path.basename(o["dir"]))
-                    else:
-                        V.violate(kind="oracle", failing_input=True, input=hist[:], expected=want, observed=im,
-                                  faithful_model=faithful, sql=sql,
-                                  note="inside known class %s, but neither the recorded wrong behaviour nor the intended listing" % cls[0])
+                mtxt = ("OK", fmt_list([(r[0], r[1]) for r in mrows]))
+                if faithful != want or mtxt != want:
+                    V.violate(kind="correspondence", failing_input=False, function="select_stmt/db_list", input=hist[:],
+                              model=mtxt, sqlite_on_model_stmt=faithful, expected=want, sql=sql, params=params)
+                if im != want:
+                    V.violate(kind="oracle", failing_input=True, input=hist[:], expected=want, observed=im, sql=sql,
+                              note="listing differs from the rows selected by pattern / directory / session in tsb order "
+                                   "(or listing failed)")
+                elif want[1]:
+                    res.nontrivial("list:" + o["pattern"] + "|" + want[1])
+                if "'" in o["pattern"] or (o["p"] and "'" in o["dir"]):
+                    res.nontrivial("quote-list:" + o["pattern"] + "|" + os.path.basename(o["dir"]))
             # resynchronise the shadow with the implementation's table if they differ (reported above)
             if o["k"] in "AD" and im != [tuple(r) for r in conn.execute(ALLQ)]:
                 conn.execute("DELETE FROM cicada_history")
@@ -358,43 +336,16 @@ def check_scenario(V, ops, mouts, impl, shadow_path):
 def layer0(ctx, res):
     rng = ctx.rng
     n = 6000 if ctx.thorough else 1500
-    lits = []
-    for _ in range(n):
-        s = "'" + "".join(rng.choice(["'", "'", "a", "%", " ", "é", ";", "--", ")", "''", ","]) for _ in range(rng.randint(0, 9)))
-        lits.append(s)
     likes = []
     la = ["a", "A", "b", "%", "_", "é", "É", "'", "\\", "z"]
     for _ in range(n):
         likes.append(("".join(rng.choice(la) for _ in range(rng.randint(0, 5))),
                       "".join(rng.choice(la) for _ in range(rng.randint(0, 6)))))
-    path = C.write_cases("c18_l0.txt", [C.case("lex", s) for s in lits] + [C.case("like", p, t) for p, t in likes])
+    path = C.write_cases("c18_l0.txt", [C.case("like", p, t) for p, t in likes])
     mo = C.run_model(ctx.model["C18"], path)
     conn = sqlite3.connect(":memory:")
     bad = 0
-    for s, m in zip(lits, mo[:len(lits)]):
-        if m == "none":
-            try:
-                conn.execute("SELECT " + s).fetchall()
-                ok = False   # sqlite lexed a literal where the model says unterminated
-                # (a complete literal followed by other tokens is a `some`, so any success contradicts `none`)
-            except sqlite3.Error as e:
-                ok = "unrecognized token" in str(e) or "incomplete" in str(e)
-        else:
-            v, rest = [C.dec(x) for x in m[6:-1].split('" "')]
-            lit = s[:len(s) - len(rest)] if rest else s
-            try:
-                got = conn.execute("SELECT " + lit).fetchall()[0][0]
-                ok = got == v
-            except sqlite3.Error:
-                ok = False
-            if ok and v:
-                res.nontrivial("lex:" + m)
-        if not ok:
-            bad += 1
-            if bad <= 3:
-                res.violate(kind="correspondence", layer="L0", function="lex_literal", input=s, model=m, failing_input=False,
-                            note="the model of sqlite's string-literal lexing disagrees with sqlite")
-    for (p, t), m in zip(likes, mo[len(lits):]):
+    for (p, t), m in zip(likes, mo):
         got = conn.execute("SELECT ? LIKE ?", (t, p)).fetchall()[0][0]
         if str(got) != m:
             bad += 1
@@ -403,15 +354,14 @@ def layer0(ctx, res):
                             failing_input=False, note="the model of LIKE disagrees with sqlite")
         elif m == "1" and p:
             res.nontrivial("like:%s~%s" % (p, t))
-    res.count("L0_lexer_and_like_vs_sqlite", len(lits) + len(likes))
-    res.sample({"layer": "L0", "input": lits[3], "model": mo[3]})
+    res.count("L0_like_vs_sqlite", len(likes))
 
 
 # ------------------------------------------------------------------ L1
 def layer1(ctx, res, V, work):
     rng = ctx.rng
     n = 1500 if ctx.thorough else 300
-    scns = [gen_scenario(rng, "/w") for _ in range(n)]
+    scns = [prefix_scenario("/w")] + [gen_scenario(rng, "/w") for _ in range(n)]
     if ctx.replay_ops and ctx.replay_layer == "L1":
         scns = [ctx.replay_ops]
     lines = []
@@ -492,7 +442,7 @@ def layer2(ctx, res, V, work):
     for i in range(n):
         root = os.path.join(work, "l2_%d" % i)
         os.makedirs(root)
-        scns.append(gen_scenario(rng, root, l2=True))
+        scns.append(prefix_scenario(root) if i == 0 else gen_scenario(rng, root, l2=True))
     if ctx.replay_ops and ctx.replay_layer == "L2":
         scns = scns[:1]
         root = os.path.join(work, "l2_0")
@@ -638,10 +588,6 @@ def run(ctx, res):
         layer2(ctx, res, V2, work)
         V3 = Verdicts(res, "L3", known)
         layer3(ctx, res, V3, work)
-        rep = sorted(V.repaired | V2.repaired)
-        hit = set(res.known_hits)
-        res.extra["findings_no_longer_reproducing"] = [c for c in rep if c not in hit]
-        res.extra["recogniser_incomplete_cases"] = V.incomplete + V2.incomplete
         res.extra["not_covered"] = ["`history -d` date rendering", "HISTORY_TABLE other than the default",
                                     "init's load order into the line editor, delete_duplicated_histories (HISTORY_DELETE_DUPS=0 in L3)",
                                     "concurrent writers / locking (sqlite's)"]
